@@ -744,6 +744,11 @@ Expr={expr}"""
                 return new_collection(expr.Isin(self, values=values))
             raise NotImplementedError(f"Passing a {typename(type(values))!r} to `isin`")
 
+        if isinstance(self, DataFrame) and isinstance(values, Mapping):
+            # Values per column: keep the mapping visible to the optimizer, a
+            # column projection must not be pushed below it
+            return new_collection(expr.Isin(self, values=values))
+
         # We wrap values in a delayed for two reasons:
         # - avoid serializing data in every task
         # - avoid cost of traversal of large list in optimizations
